@@ -147,6 +147,13 @@ impl StateMachineTrait for Metadata {
                 sealed_segment_entry_count,
             } => {
                 if let Some(topic_state) = state.topics.get_mut(&name) {
+                    // Reject a count that would overflow the cumulative offset before
+                    // touching the state (a wrapped offset no longer equals the sum of the
+                    // sealed counts; in debug builds the addition panics).
+                    let new_offset = topic_state
+                        .last_sealed_entry_offset
+                        .checked_add(sealed_segment_entry_count)
+                        .ok_or_else(|| "sealed entry offset overflow".to_string())?;
                     let sealed_seg = topic_state.current_segment;
                     topic_state
                         .sealed_segments
@@ -154,7 +161,7 @@ impl StateMachineTrait for Metadata {
                     topic_state
                         .segment_leaders
                         .insert(sealed_seg, topic_state.leader_node);
-                    topic_state.last_sealed_entry_offset += sealed_segment_entry_count;
+                    topic_state.last_sealed_entry_offset = new_offset;
                     topic_state.current_segment += 1;
                     topic_state.leader_node = new_leader;
                     topic_state
